@@ -218,6 +218,12 @@ func (p *Proxy) Serve(l net.Listener) error {
 			return err
 		}
 		delay = 0
+		// Register the connection before its handler is started so that Close
+		// cannot observe an empty wait group while an accepted connection has
+		// not been closed yet.
+		p.connsMu.Lock()
+		p.conns.Add(1)
+		p.connsMu.Unlock()
 		log.Debugf("martian: accepted connection from %s", conn.RemoteAddr())
 
 		if tconn, ok := conn.(*net.TCPConn); ok {
@@ -230,9 +236,6 @@ func (p *Proxy) Serve(l net.Listener) error {
 }
 
 func (p *Proxy) handleLoop(conn net.Conn) {
-	p.connsMu.Lock()
-	p.conns.Add(1)
-	p.connsMu.Unlock()
 	defer p.conns.Done()
 	defer conn.Close()
 	if p.Closing() {
